@@ -38,6 +38,29 @@ def _import_cuqi():
     return cuqi
 
 
+def raised_in_library(exc):
+    """True when the exception originates in library code: walking the traceback from the innermost frame outwards, the
+    first frame that belongs to either the repository tree or /verif is a repository frame (so an error raised by numpy
+    called from cuqi counts as the library's, one raised by numpy called from a check, or inside a harness callback that
+    the library invoked, is the harness')."""
+    root = _repo_root() + os.sep
+    mine = ROOT + os.sep
+    frames = traceback.extract_tb(exc.__traceback__)
+    for fr in reversed(frames):
+        fn = os.path.realpath(fr.filename)
+        if fn.startswith(root):
+            return True
+        if fn.startswith(mine):
+            return False
+    return False
+
+
+def library_exception_as_violation(e):
+    tb = traceback.format_exception(type(e), e, e.__traceback__)
+    return Violation(f"the library raised {type(e).__name__} on a generated input for which the property requires a result "
+                     f"(the pinned version returns one): {str(e)[:200]}", traceback="".join(tb)[-1500:])
+
+
 def _mix(seed, name, shard):
     return (zlib.crc32(f"{seed}|{name}|{shard}".encode()) ^ (seed * 2654435761)) & 0x7FFFFFFF
 
@@ -55,11 +78,46 @@ def _find(mod, name):
 
 # ------------------------------------------------------------------ worker
 
+def _linecov_start():
+    """development aid (VERIF_LINECOV=<dir>): record which lines of the library each worker executes
+    (sys.monitoring, each line reported once) - used by tools/automutate.py to mutate only executed code"""
+    d = os.environ.get("VERIF_LINECOV")
+    if not d or not hasattr(sys, "monitoring"):
+        return None
+    root = _repo_root() + os.sep
+    hits = set()
+    mon = sys.monitoring
+    tool = mon.COVERAGE_ID
+    try:
+        mon.use_tool_id(tool, "verif-linecov")
+    except ValueError:
+        return None
+
+    def on_line(code, line):
+        fn = code.co_filename
+        if fn.startswith(root):
+            hits.add((fn[len(root):], line))
+        return mon.DISABLE
+    mon.register_callback(tool, mon.events.LINE, on_line)
+    mon.set_events(tool, mon.events.LINE)
+    return d, hits
+
+
+def _linecov_stop(h, name, shard):
+    if h is None:
+        return
+    d, hits = h
+    os.makedirs(d, exist_ok=True)
+    with open(os.path.join(d, f"{name.replace('/', '_')}-{shard}.json"), "w") as f:
+        json.dump(sorted(hits), f)
+
+
 def _worker(args):
     pid, name, tier, seed, shard, nshards, t_end = args
     out = {"subcheck": name, "shard": shard, "status": "ok"}
     rec = Recorder(name)
     t0 = time.time()
+    cov = _linecov_start()
     try:
         with contextlib.redirect_stdout(io.StringIO()), contextlib.redirect_stderr(io.StringIO()):
             _import_cuqi()
@@ -76,6 +134,7 @@ def _worker(args):
         out["status"] = "harness-error"
         out["error"] = f"{type(e).__name__}: {e}"
         out["traceback"] = traceback.format_exc()[-6000:]
+    _linecov_stop(cov, name, shard)
     out["rec"] = rec.export()
     out["wall_s"] = time.time() - t0
     return out
@@ -99,7 +158,14 @@ def _run_subcheck(sc, rec, tier, seed, shard, nshards, t_end):
                 return
         rec.begin(case)
         try:
-            sc.run(case, rec)
+            try:
+                sc.run(case, rec)
+            except (Violation, HarnessError):
+                raise
+            except Exception as e:
+                if e.__class__.__module__.startswith("hypothesis") or not raised_in_library(e):
+                    raise
+                raise library_exception_as_violation(e) from None
         except Violation as v:
             if os.environ.get("VERIF_SURVEY"):
                 key = "FAIL " + json.dumps(jsonable(rec._tags), sort_keys=True) + " :: " + re.sub(r"[-+]?\d[\d.e+-]*", "#", v.msg)[:110]
@@ -174,6 +240,12 @@ def replay_case(pid, name, case, exclude_known=False):
             sc.run(case, rec)
     except Violation as v:
         return v
+    except HarnessError:
+        raise
+    except Exception as e:
+        if raised_in_library(e):
+            return library_exception_as_violation(e)
+        raise
     return None
 
 
